@@ -833,7 +833,7 @@ pub proof fn canary_must_fail_sta()
 {
     broadcast use {group_iter_seq, group_strobe, group_field, group_s5, ax_s5_prf_prefix, ax_s4, ax_fv_inj, ax_finv,
         adss::ax_det_strobe_rng, sta_rs::ax_fill_strobe_rng, adss::lemma_s_parts_ext,
-        ax_vec_u8_ext, ax_vec_u8_key_model, vstd::laws_eq::group_laws_eq};
+        ax_vec_u8_ext, ax_vec_u8_key_model, vstd::laws_eq::group_laws_eq, ax_concat_vec_u8};
 }
 
 } // mod lemmas
